@@ -90,6 +90,21 @@ def loc_of(path: Path, node) -> str:
 # known findings
 
 
+def _is_reference_tree() -> bool:
+    """the tree under analysis is the committed tree the reference (sa/reference_head.txt) was generated from"""
+    import subprocess
+    ref = VERIF / "sa" / "reference_head.txt"
+    if not ref.exists() or not (REPO / ".git").exists():
+        return False
+    try:
+        head = subprocess.run(["git", "-C", str(REPO), "rev-parse", "HEAD"], capture_output=True, text=True, timeout=20).stdout.strip()
+        dirty = subprocess.run(["git", "-C", str(REPO), "status", "--porcelain", "--untracked-files=no"], capture_output=True, text=True, timeout=20).stdout.strip()
+    except Exception:
+        return False
+    return head == ref.read_text().strip() and not dirty
+
+
+
 @dataclass
 class Known:
     prop: str
@@ -164,6 +179,15 @@ def run_property(prop: str, tier: str, fn: Callable[[Collector, str], None], exp
             continue
         seen.add(o.key)
         print(f"KNOWN-FINDING: property={prop} {known_keys[o.key].text} [{o.key}] at {o.loc}")
+
+    # a listed finding that no rule reports any more: either the defect was repaired in the tree under analysis, or a rule lost sight of
+    # it.  On the very tree the reference was taken from (same HEAD, clean) only the second reading is possible: analysis-broken.
+    stale = [k for k in known if k.key not in {o.key for o in failed}]
+    for k in stale:
+        print(f"  note: listed known finding not reported on this tree: {k.key}")
+    if stale and tier == "thorough" and _is_reference_tree():
+        print(f"ANALYSIS-ERROR property={prop} known finding(s) {[k.key for k in stale]} are listed for this very tree but no rule reports them")
+        return 2
 
     selftest_info: Dict[str, Any] = {}
     rc = 0
